@@ -9,7 +9,12 @@ EXTENDS Writer, Json
 \* version is everything the output depends on, and the helper file depends on the configuration too
 \* v8: a workspace with an ambiguous import (several crates define the name): same abstract behaviour as any other version -
 \* the point is made on the real binary, whose choice must be the same in every process
-MCVersions == {"v1", "v2", "v3", "v4", "v5", "v6", "v7", "v8"}
+\* v9: the sources of v1 plus one more type whose definition sorts LAST in its output file: v1's output is a proper prefix of
+\* v9's (for backends without a footer), and going back from v9 to v1 makes the new output a prefix of the old file
+\* v10: the sources of v4 spread over many files, with OVERLAPPING directory arguments on the command line (a directory and
+\* two of its own sub-directories): a version is everything the output depends on, the directory arguments included
+MCVersions == {"v1", "v2", "v3", "v4", "v5", "v6", "v7", "v8", "v9", "v10"}
+MCExtends == {<<"A1", "A9">>}
 MCFails == [v \in MCVersions |-> v = "v6"]
 MCGen == [v \in MCVersions |->
     CASE v = "v1" -> [a |-> "A1", b |-> "B1"]
@@ -19,6 +24,14 @@ MCGen == [v \in MCVersions |->
       [] v = "v5" -> [a |-> "A1cr", b |-> "B1"]
       [] v = "v6" -> [a |-> "A1", b |-> "B6"]
       [] v = "v7" -> [a |-> "A1c", b |-> "B3c", codable |-> "CVc"]
-      [] v = "v8" -> [a |-> "A8", b |-> "B8"]]
-EmitHistory == PrintT(<<"REPLAY", ToJson([history |-> hist])>>)
+      [] v = "v8" -> [a |-> "A8", b |-> "B8"]
+      [] v = "v9" -> [a |-> "A9", b |-> "B1"]
+      [] v = "v10" -> [a |-> "A10", b |-> "B10"]]
+\* bounds of the enumeration handed to the real binary (the model configurations fixed / bug / eager / prefix are unbounded):
+\* at most MaxDistinct different versions per history, and a history that starts on a placeholder has at most MaxAfterTouch runs
+CONSTANTS MaxDistinct, MaxAfterTouch
+RunsOf(h) == SelectSeq(h, LAMBDA x : x # "touch")
+HistBound == /\ Cardinality({hist[k] : k \in 1..Len(hist)} \ {"touch"}) <= MaxDistinct
+             /\ (hist # <<>> /\ hist[1] = "touch") => Len(RunsOf(hist)) <= MaxAfterTouch
+EmitHistory == HistBound => PrintT(<<"REPLAY", ToJson([history |-> hist])>>)
 =============================================================================
